@@ -197,6 +197,20 @@ func configs01(tier string) []xplore.Config {
 			}
 		}
 	}
+	// a subscription naming two paths of which the first is a plain STRING prefix
+	// of the second without being its ancestor (a, then ab - eth1, then eth10):
+	// both are walked for the snapshot and both are streamed
+	for _, sp := range []subSpec{{target: "t1", paths: []string{"a", "ab"}, mode: stream}, {target: "t1", paths: []string{"ab", "a"}, mode: stream}} {
+		for _, sc := range [][]wop{{{"upd", "ab/x"}}, {{"upd", "ab/x"}, {"upd", "a/b"}}, {{"upd", "a/b"}, {"upd", "ab/x"}}} {
+			for _, rev := range []bool{false, true} {
+				name := fmt.Sprintf("relay W(t1)=%s | %s (sibling names, one a string prefix of the other)", scriptName(sc), sp)
+				if rev {
+					name += " [newest-first]"
+				}
+				out = append(out, xplore.Config{Name: name, Bound: bound - 1, Data: cfg04{writers: []writer{{"t1", sc}}, subs: []subSpec{sp}, reverse: rev}})
+			}
+		}
+	}
 	// a second client subscribed below the first one's path goes away while the
 	// target keeps streaming: the remaining client must still get everything
 	// (the first client sits at an ANCESTOR node of the second one's path: the
